@@ -4,7 +4,7 @@ From Coq Require Import ZArith List Bool Lia.
 Import ListNotations.
 Local Open Scope Z_scope.
 
-Record rx := { started : bool; vr : Z }.
+Record rx := { started : bool; rxvr : Z }.
 Inductive dres := Deliver (asdu : list Z) | Ignore | Close.
 
 Definition ns_of (f : list Z) : Z := Z.quot (nth 3 f 0 * 256 + Z.land (nth 2 f 0) 254) 2.
@@ -15,9 +15,9 @@ Definition on_frame (nr_ok : Z -> bool) (st : rx) (f : list Z) : rx * dres :=
   if is_i f then
     if Z.of_nat (length f) <? 7 then (st, Close)
     else if negb (started st) then (st, Close)
-    else if negb (ns_of f =? vr st) then (st, Close)
+    else if negb (ns_of f =? rxvr st) then (st, Close)
     else if negb (nr_ok (nr_of f)) then (st, Close)
-    else ({| started := started st; vr := (vr st + 1) mod 32768 |}, Deliver (skipn 6 f))
+    else ({| started := started st; rxvr := (rxvr st + 1) mod 32768 |}, Deliver (skipn 6 f))
   else (st, Ignore).
 
 Fixpoint on_frames (nr_ok : Z -> bool) (st : rx) (fs : list (list Z)) : list (list Z) * bool * rx :=
@@ -35,8 +35,8 @@ Fixpoint on_frames (nr_ok : Z -> bool) (st : rx) (fs : list (list Z)) : list (li
 (* delivered ASDUs are exactly the I-frames of the accepted prefix, once each and in order, and the
    k-th of them carried N(S) = vr0 + k (mod 2^15) *)
 Lemma on_frames_ns : forall nr_ok fs st d c s,
-  on_frames nr_ok st fs = (d, c, s) -> 0 <= vr st < 32768 ->
-  vr s = (vr st + Z.of_nat (length d)) mod 32768.
+  on_frames nr_ok st fs = (d, c, s) -> 0 <= rxvr st < 32768 ->
+  rxvr s = (rxvr st + Z.of_nat (length d)) mod 32768.
 Proof.
   induction fs as [|f fs IH]; intros st d c s H Hv; cbn [on_frames] in H.
   - inversion H; subst. cbn [length]. rewrite Z.add_0_r, Z.mod_small; lia.
@@ -44,11 +44,11 @@ Proof.
     destruct (is_i f).
     + destruct (Z.of_nat (length f) <? 7); [inversion H; subst; cbn [length]; rewrite Z.add_0_r, Z.mod_small; lia|].
       destruct (negb (started st)); [inversion H; subst; cbn [length]; rewrite Z.add_0_r, Z.mod_small; lia|].
-      destruct (negb (ns_of f =? vr st)); [inversion H; subst; cbn [length]; rewrite Z.add_0_r, Z.mod_small; lia|].
+      destruct (negb (ns_of f =? rxvr st)); [inversion H; subst; cbn [length]; rewrite Z.add_0_r, Z.mod_small; lia|].
       destruct (negb (nr_ok (nr_of f))); [inversion H; subst; cbn [length]; rewrite Z.add_0_r, Z.mod_small; lia|].
-      destruct (on_frames nr_ok {| started := started st; vr := (vr st + 1) mod 32768 |} fs) as [[d' c'] s'] eqn:E.
-      inversion H; subst. apply IH in E; [|cbn [vr]; apply Z.mod_pos_bound; lia].
-      cbn [vr length] in *. rewrite E. rewrite Nat2Z.inj_succ.
+      destruct (on_frames nr_ok {| started := started st; rxvr := (rxvr st + 1) mod 32768 |} fs) as [[d' c'] s'] eqn:E.
+      inversion H; subst. apply IH in E; [|cbn [rxvr]; apply Z.mod_pos_bound; lia].
+      cbn [rxvr length] in *. rewrite E. rewrite Nat2Z.inj_succ.
       rewrite Zplus_mod_idemp_l. f_equal. lia.
     + eapply IH; eauto.
 Qed.
